@@ -31,21 +31,21 @@ func syntaxEnumCount(maxLen int) int {
 
 func plans() map[string][]streamPlan {
 	return map[string][]streamPlan{
-		"C01": {{"core", 25000, 500000}, {"expr", 6000, 100000}, {"depth", depthCount(), depthCount()}, {"pairs", pairCount(), pairCount()}},
-		"C02": {{"proj", 25000, 500000}, {"vproj", 8000, 150000}, {"pairs", pairCount(), pairCount()}, {"typed", 1500, 60000}},
+		"C01": {{"core", 25000, 500000}, {"expr", 6000, 100000}, {"depth", depthCount(), depthCount()}, {"pairs", pairCount(), pairCount()}, {"size", sizeCount(), sizeCount()}},
+		"C02": {{"proj", 25000, 500000}, {"vproj", 8000, 150000}, {"pairs", pairCount(), pairCount()}, {"typed", 1500, 60000}, {"size", sizeCount(), sizeCount()}},
 		"C03": {{"prec", 20000, 400000}, {"spelling", 6000, 150000}, {"syntax-enum", syntaxEnumCount(3), syntaxEnumCount(4)}, {"depth", depthCount(), depthCount()}},
 		"C04": {{"syntax-enum", syntaxEnumCount(3), syntaxEnumCount(4)}, {"syntax", 15000, 500000}, {"hostile", 4000, 50000}, {"depth", depthCount(), depthCount()}},
-		"C05": {{"hostile", 15000, 300000}, {"bytes", 20000, 500000}, {"expr", 10000, 200000}, {"fnmatrix", matrixCount(2), matrixCount(3)}, {"fnseq", 8000, 100000}, {"depth", depthCount(), depthCount()}, {"fn", 8000, 200000}, {"pairs", 60000, pairCount()}},
-		"C06": {{"fnpaths", 25000, 500000}, {"api", 1500, 40000}, {"expr", 5000, 100000}, {"pairs", 60000, pairCount()}},
+		"C05": {{"hostile", 15000, 300000}, {"bytes", 20000, 500000}, {"expr", 10000, 200000}, {"fnmatrix", matrixCount(2), matrixCount(3)}, {"fnseq", 8000, 100000}, {"depth", depthCount(), depthCount()}, {"fn", 8000, 200000}, {"pairs", 60000, pairCount()}, {"size", sizeCount(), sizeCount()}},
+		"C06": {{"fnpaths", 25000, 500000}, {"api", 1500, 40000}, {"expr", 5000, 100000}, {"pairs", 60000, pairCount()}, {"size", sizeCount(), sizeCount()}},
 		"C07": {{"truth", truthCount(), truthCount()}, {"truth-nest", 10000, 500000}, {"pairs", pairCount(), pairCount()}},
 		"C08": {{"slice", sliceCount(6), sliceCount(9)}, {"slice-big", sliceBigCount() + 5000, sliceBigCount() + 300000}, {"typed", 3000, 60000}},
-		"C09": {{"fn", 40000, 800000}, {"expr", 5000, 100000}, {"edge", edgeCount(), edgeCount()}, {"fnseq", 6000, 100000}, {"pairs", pairCount(), pairCount()}},
+		"C09": {{"fn", 40000, 800000}, {"expr", 5000, 100000}, {"edge", edgeCount(), edgeCount()}, {"fnseq", 6000, 100000}, {"pairs", pairCount(), pairCount()}, {"size", sizeCount(), sizeCount()}},
 		"C10": {{"fnmatrix", matrixCount(3), matrixCount(4)}, {"fnseq", 15000, 300000}, {"expr", 5000, 100000}, {"pairs", 60000, pairCount()}},
 		"C11": {{"errctx", errCtxCount(true), errCtxCount(true)}, {"expr", 8000, 300000}, {"proj", 4000, 100000}, {"pairs", pairCount(), pairCount()}},
 		"C13": {{"api", 3000, 120000}, {"expr", 4000, 100000}, {"pairs", 40000, pairCount()}, {"typed", 1500, 60000}},
-		"C14": {{"ident", identExhaustive(2) + 8000, identExhaustive(2) + 300000}, {"unquoted", unquotedCount(), unquotedCount()}, {"spelling", 5000, 100000}, {"jsoncodec", 4000, 100000}, {"edge", edgeCount(), edgeCount()}},
+		"C14": {{"ident", identExhaustive(2) + 8000, identExhaustive(2) + 300000}, {"unquoted", unquotedCount(), unquotedCount()}, {"spelling", 5000, 100000}, {"jsoncodec", 4000, 100000}, {"edge", edgeCount(), edgeCount()}, {"size", sizeCount(), sizeCount()}},
 		"C15": {{"pipe", 15000, 400000}, {"subst", 10000, 300000}, {"depth", depthCount(), depthCount()}, {"pairs", pairCount(), pairCount()}, {"typed", 1500, 60000}},
-		"C16": {{"jsonish", 4000, 100000}, {"expr", 15000, 300000}, {"fn", 10000, 200000}, {"jsoncodec", 3000, 100000}, {"edge", edgeCount(), edgeCount()}, {"pairs", pairCount(), pairCount()}},
+		"C16": {{"jsonish", 4000, 100000}, {"expr", 15000, 300000}, {"fn", 10000, 200000}, {"jsoncodec", 3000, 100000}, {"edge", edgeCount(), edgeCount()}, {"pairs", pairCount(), pairCount()}, {"size", sizeCount(), sizeCount()}},
 		"C17": {{"bytes", 20000, 500000}, {"syntax-enum", syntaxEnumCount(3), syntaxEnumCount(4)}, {"syntax", 8000, 200000}},
 		"C18": {{"typed", 8000, 300000}, {"typedmodel", 4000, 150000}},
 		"C19": {{"cli", 1200, 30000}, {"jsoncodec", 4000, 100000}},
